@@ -106,6 +106,17 @@ def cases(ctx):
         r = rng.choice([['sum', ['sum', x, y], ['cat', x, y]], ['sum', ['cat', x, ['star', y]], ['sum', x, ['star', y]]],
                         ['star', ['sum', ['cat', ['sum', x, y], z], ['cat', ['cat', x, y], z]]], ['sum', ['cat', x, y], ['cat', y, x]]])
         yield {'kind': 'r2n', 'r': r}
+    # operands whose start state is already accepting, under every operator and on either side (nested stars, 1 + x, x*.y, 1 + x*.y ...)
+    for i in range(120 if not thorough else 1200):
+        a, b = ['sym', 'a'], ['sym', 'b']
+        nul = rng.choice([['star', a], ['star', ['star', a]], ['sum', ['one'], a], ['sum', a, ['one']], ['one'], ['star', ['sum', ['one'], a]],
+                          ['star', gen.random_regexp(rng, 1, ['a', 'b'])], ['cat', ['star', a], ['star', b]]])
+        y = rng.choice([b, ['cat', b, a], gen.random_regexp(rng, rng.randint(0, 2), ['a', 'b'])])
+        inner = rng.choice([['cat', ['star', nul], y], ['cat', nul, y], ['cat', y, ['star', nul]], ['star', nul], ['cat', ['star', nul], ['star', y]]])
+        r = rng.choice([['sum', ['one'], inner], ['sum', inner, ['one']], ['star', ['sum', ['one'], inner]], ['cat', ['sum', ['one'], inner], y],
+                        ['sum', ['zero'], inner], inner])
+        if not thorough or ctx.mine(i):
+            yield {'kind': 'r2n', 'r': r}
     for n, Sg in ((1, ['a']), (2, ['a']), (2, ['a', 'b']), (1, ['0', '1']), (2, ['1'])):
         for s in gen.exhaustive_dfas(n, Sg):
             yield {'kind': 'd2r', 'D': s}
